@@ -34,7 +34,17 @@ def write_part(g, d, name, rows, gtis, livetime):
 
 def master(g, n):
     t = numpy.sort(g.choice(numpy.arange(1, 2 ** 16), n, replace=False)) / 2 ** 6 + T0
-    return dict(time=t, pi=g.integers(40, 240, n), phi=g.uniform(-math.pi, math.pi, n), w=g.uniform(0.1, 1., n),
+    pi = g.integers(40, 240, n)
+    phi = g.uniform(-math.pi, math.pi, n)
+    if n > 2000:
+        # a strongly (and physically) polarized high-energy band next to unpolarized ones: one bin of the cube is detected at very high
+        # significance (where the significance is evaluated by another formula), the others are not
+        al = numpy.where(pi >= 150)[0]
+        m, phi0 = 0.5, float(g.uniform(-1.5, 1.5))
+        cand = g.uniform(-math.pi, math.pi, 4 * len(al))
+        keep = cand[g.uniform(0., 1. + m, len(cand)) < 1. + m * numpy.cos(2. * (cand - phi0))]
+        phi[al] = keep[:len(al)]
+    return dict(time=t, pi=pi, phi=phi, w=g.uniform(0.1, 1., n),
                 ra=RA0 + g.normal(0, 0.03, n) / math.cos(math.radians(DEC0)), dec=DEC0 + g.normal(0, 0.03, n),
                 phase=g.integers(0, 256, n) / 256., tag=numpy.arange(1, n + 1))
 
@@ -65,7 +75,7 @@ def explore(chk, budget=1):
     drv = Driver()
     jobs = []
     with scratch() as d:
-        n = int(g.integers(600, 1500))
+        n = int(g.integers(600, 1500)) if budget % 2 == 0 else int(g.integers(5000, 7000))       # odd rounds: the large list with a highly significant band
         rows = master(g, n)
         nparts = int(g.integers(2, 5))
         # partition: random assignment; one part is confined to low energies so that it is empty in the upper energy bins
@@ -272,6 +282,42 @@ def known_findings(chk):
                               observed='EXPOSURE[0] %.3f vs %.3f for two orders of the same three files' % (a.EXPOSURE[0], b.EXPOSURE[0]))
 
 
+def explore_bright(chk, budget=1):
+    """a bright compact source on coarse pixels: tens of thousands of counts in one pixel of each part, more than 2¹⁵ (and, thorough, 2¹⁶) in the sum —
+    the summed count map equals the map of the merged events whatever the integer type each file was stored in"""
+    from astropy.io import fits
+    from ixpeobssim.binning.misc import xBinnedMap
+    g = rng('C07-bright-%d' % budget)
+    with scratch() as d:
+        n = 72000 if chk.tier == 'quick' else int(g.choice([72000, 140000]))
+        t = numpy.sort(g.choice(numpy.arange(1, 2 ** 20), n, replace=False)) / 2 ** 10 + T0
+        rows = dict(time=t, pi=g.integers(40, 240, n), phi=g.uniform(-math.pi, math.pi, n), w=numpy.ones(n),
+                    ra=RA0 + g.normal(0, 0.0008, n) / math.cos(math.radians(DEC0)), dec=DEC0 + g.normal(0, 0.0008, n), phase=g.integers(0, 256, n) / 256., tag=numpy.arange(1, n + 1))
+        nparts = 3
+        assign = g.integers(0, nparts, n)
+        gtis = [(T0, T1)]
+        merged = write_part(g, d, 'bmerged.fits', rows, gtis, 1000.)
+        parts = [write_part(g, d, 'bpart%d.fits' % i, subset(rows, assign == i), gtis, 1000.) for i in range(nparts)]
+        args = ['--npix', 5, '--pixsize', 40.]      # an odd number of pixels: the source sits inside the central one
+        pf = [xpbin(p, 'CMAP', *args) for p in parts]
+        with fits.open(xpbin(merged, 'CMAP', *args)) as m:
+            ref = numpy.array(m[0].data, dtype=float)
+        for o in itertools.permutations(range(nparts)):
+            chk.case(dict(op='CMAP-sum-bright', events=n, max_pixel=float(ref.max()), order=list(o)), nontrivial=ref.max() > 2 ** 15)
+            s = xBinnedMap.from_file_list([pf[i] for i in o])
+            got = numpy.array(s.fits_image.data, dtype=float)
+            if not numpy.array_equal(got, ref):
+                chk.fail('impl', 'CMAP of a bright source (%d events, %.0f in the brightest pixel): the sum of %d files in order %s differs from the map of the merged events '
+                         '(brightest pixel of the sum %.0f)' % (n, ref.max(), nparts, list(o), got.max()), dict(oracle='cmap-bright', order=list(o), events=n))
+                break
+            out_ = os.path.join(d, 'bsum.fits')
+            s.write(out_)
+            with fits.open(out_) as h:
+                if not numpy.array_equal(numpy.array(h[0].data, dtype=float), ref):
+                    chk.fail('impl', 'CMAP of a bright source: the written sum differs from the map of the merged events', dict(oracle='cmap-bright-write', order=list(o)))
+                    break
+
+
 def main(chk):
     chk.rule = ('a master event list partitioned at random into 2–4 files (one part empty in the upper energy bins), binned by the real xpbin and summed with from_file_list in all '
                 'orders (n ≤ 3) or 6 random orders: PCUBE weighted and unweighted (all additive and derived columns vs the cube of the merged events and vs the Lean model), '
@@ -282,11 +328,14 @@ def main(chk):
     import corr_gen
     corr_gen.run(chk, ['weighted_average', 'lc_iadd', 'pcube_iadd'], n=200 if chk.tier == 'quick' else 3000, tag='C07')
     explore(chk)
+    explore(chk, 2)
+    explore_bright(chk)
     if chk.tier != 'quick':
-        for b in range(2, 10):
+        for b in range(3, 10):
             explore(chk, b)
+        explore_bright(chk, 2)
     known_findings(chk)
-    return chk.finish(level='proof', trusted=TRUSTED, search=lambda k: [explore(chk, 100 + j) for j in range(3)])
+    return chk.finish(level='proof', trusted=TRUSTED, search=lambda k: [explore(chk, 100 + j) for j in range(3)] + [explore_bright(chk, 100)])
 
 
 def replay(body):
